@@ -55,18 +55,30 @@ def sw(x, bits=64):
     return x - (1 << bits) if x >> (bits - 1) else x
 
 
-def replay(scratch, rp, ce, params, profiles=(False, True)):
-    """returns (reproduced, note, payload)"""
+def replay(scratch, rp, ce, params, profiles=(False, True), variants=True):
+    """returns (reproduced, note, payload).  The judge compares the real code with the reference on the concrete input
+    actually run, so it is sound for any input: when the solver's own model does not reproduce (e.g. it picked pc = 0
+    where a wrong backward jump is unobservable) neighbouring inputs offered by the replay module are tried too."""
     import importlib
     kind = rp["kind"]
     mod = importlib.import_module("replay_" + kind)
-    fields, judge = mod.prepare(rp, ce, params)
-    if fields is None:
-        return False, judge, None
-    outs = {}
-    for rel in profiles:
-        outs["release" if rel else "dev"] = run_native(scratch, fields, release=rel)
-    verdicts = {k: judge(v) for k, v in outs.items()}
-    ok = any(v[0] for v in verdicts.values())
-    note = "; ".join(f"{k}: {v[1]}" for k, v in verdicts.items())
-    return ok, note, dict(input=fields, native=outs)
+    first = None
+    cands = [(None, ce)]
+    if variants and hasattr(mod, "variants"):
+        cands += list(mod.variants(rp, ce, params))
+    for label, ce2 in cands:
+        fields, judge = mod.prepare(rp, ce2, params)
+        if fields is None:
+            res = (False, judge, None)
+        else:
+            outs = {}
+            for rel in profiles:
+                outs["release" if rel else "dev"] = run_native(scratch, fields, release=rel)
+            verdicts = {k: judge(v) for k, v in outs.items()}
+            ok = any(v[0] for v in verdicts.values())
+            note = "; ".join(f"{k}: {v[1]}" for k, v in verdicts.items())
+            if label: note = f"[neighbouring input: {label}] " + note
+            res = (ok, note, dict(input=fields, native=outs))
+        if res[0]: return res
+        if first is None: first = res
+    return first
